@@ -4,6 +4,7 @@ import RV.C20.ValuesProps
 import RV.C20.ConnProps
 import RV.C20.ResultProps
 import RV.C20.EndToEnd
+import RV.C20.SliceProps
 open RV.C20
 #print axioms remote_mirrors
 #print axioms deferred_visibility
@@ -31,3 +32,4 @@ open RV.C20
 #print axioms pattern_read_reaches_endpoint
 #print axioms long_transaction_stays_queued
 #print axioms add_graph_resends_create
+#print axioms slice_query_means_pattern
